@@ -143,7 +143,10 @@ class PathCtx:
         return self.model
 
     # --- forking
-    def branch(self, cond) -> bool:
+    def branch(self, cond, int_value=None) -> bool:
+        """decide a branch condition; decisions are recorded as (taken, structural hash of the
+        condition, pinned integer value or None) so that a re-execution that diverges from the
+        recorded prefix is detected instead of silently mis-applied"""
         cond = z3.simplify(cond)
         if z3.is_true(cond):
             return True
@@ -153,8 +156,11 @@ class PathCtx:
         if key in self.decided:
             return self.decided[key]
         self.stats.decisions += 1
+        h = cond.hash()
         if self.pos < len(self.decisions):
-            d = self.decisions[self.pos]
+            d, h0, _v = self.decisions[self.pos]
+            if h0 != h:
+                raise PathAbort("divergence", "re-execution met a different branch condition than recorded (non-deterministic harness?)")
             self.pos += 1
         else:
             if len(self.decisions) >= self.max_decisions:
@@ -175,11 +181,11 @@ class PathCtx:
             other = z3.Not(cond) if d else cond
             r, _ = self._check(other)
             if r == "unknown":
-                # the other side cannot be decided: count it as an inconclusive (lost) path
+                # the other side cannot be decided: an inconclusive (lost) subtree
                 self.stats.paths_aborted["unknown-branch"] = self.stats.paths_aborted.get("unknown-branch", 0) + 1
             elif r == "sat":
-                self.pending.append(self.decisions + [not d])
-            self.decisions.append(d)
+                self.pending.append(self.decisions + [(not d, h, int_value)])
+            self.decisions.append((d, h, int_value))
             self.pos += 1
         c = cond if d else z3.Not(cond)
         self.pc.append(c)
@@ -194,12 +200,31 @@ class PathCtx:
         if z3.is_int_value(ti):
             return ti.as_long()
         for _ in range(self.max_int_fork):
-            m = self._ensure_model()
-            v = m.eval(ti, model_completion=True)
-            if not z3.is_int_value(v):
-                raise PathAbort("unknown", "integer concretisation")
-            if self.branch(ti == v):
-                return v.as_long()
+            if self.pos < len(self.decisions) and self.decisions[self.pos][2] is not None:
+                val = self.decisions[self.pos][2]  # replay: the value tried in the recorded run
+            else:
+                m = self._ensure_model()
+                v = m.eval(ti, model_completion=True)
+                if not z3.is_int_value(v):
+                    raise PathAbort("unknown", "integer concretisation")
+                val = v.as_long()
+            cond = z3.simplify(ti == val)
+            if z3.is_true(cond):
+                return val
+            if z3.is_false(cond):
+                continue
+            if cond.get_id() in self.decided:
+                if self.decided[cond.get_id()]:
+                    return val
+                # already excluded on this path: ask for another value
+                self.model = None
+                r, m = self._check()
+                if r != "sat":
+                    raise PathAbort("unknown" if r == "unknown" else "infeasible", "integer concretisation")
+                self.model = m
+                continue
+            if self.branch(cond, int_value=val):
+                return val
         raise PathAbort("bound", f"integer takes more than {self.max_int_fork} values")
 
     # --- side conditions
@@ -322,10 +347,10 @@ class SymEnv:
         st.obligations += 1
         if self.p.dim_tracked and not self.p.dim_violations:
             st.discharged += 1
-            self.obligations.append(Obligation(name, "unsat", 0.0, detail="dimension tracking: no inconsistent operation", path=list(self.p.decisions[: self.p.pos])))
+            self.obligations.append(Obligation(name, "unsat", 0.0, detail="dimension tracking: no inconsistent operation", path=[bool(d[0]) for d in self.p.decisions[: self.p.pos]]))
             return True
         st.inconclusive += 1
-        self.obligations.append(Obligation(name, "unknown", 0.0, detail="; ".join(self.p.dim_violations) or "dimensions not tracked", path=list(self.p.decisions[: self.p.pos])))
+        self.obligations.append(Obligation(name, "unknown", 0.0, detail="; ".join(self.p.dim_violations) or "dimensions not tracked", path=[bool(d[0]) for d in self.p.decisions[: self.p.pos]]))
         return False
 
     def integer(self, name, lo=None, hi=None):
@@ -367,7 +392,7 @@ class SymEnv:
         neg = z3.Not(claim_t)
         r, m = self.p._check(neg)
         dt = time.time() - t0
-        ob = Obligation(name, r, dt, info=info, detail=detail, path=list(self.p.decisions[: self.p.pos]))
+        ob = Obligation(name, r, dt, info=info, detail=detail, path=[bool(d[0]) for d in self.p.decisions[: self.p.pos]])
         if r == "unsat":
             if not info:
                 st.discharged += 1
@@ -415,7 +440,7 @@ class SymEnv:
             if not info:
                 st.obligations += 1
                 st.discharged += 1
-            self.obligations.append(Obligation(name, "unsat", 0.0, detail="syntactic", info=info, path=list(self.p.decisions[: self.p.pos])))
+            self.obligations.append(Obligation(name, "unsat", 0.0, detail="syntactic", info=info, path=[bool(d[0]) for d in self.p.decisions[: self.p.pos]]))
             return True
         return self._discharge(name, z3.And(*cl), info=info)
 
@@ -441,7 +466,7 @@ class SymEnv:
             self.p.stats.reach_ok += 1
         else:
             self.p.stats.reach_fail += 1
-            self.obligations.append(Obligation(name, "vacuous" if r == "unsat" else "unknown", 0.0, path=list(self.p.decisions[: self.p.pos])))
+            self.obligations.append(Obligation(name, "vacuous" if r == "unsat" else "unknown", 0.0, path=[bool(d[0]) for d in self.p.decisions[: self.p.pos]]))
 
     def note(self, key, value):
         self.notes[key] = value
@@ -621,17 +646,17 @@ def explore(scenario, cfg, *, max_paths=2000, tmax=300.0, query_timeout_ms=20000
                 if vp is not None:
                     res.validation_points.append(vp)
             if len(res.path_samples) < 3:
-                res.path_samples.append({"decisions": [bool(d) for d in p.decisions[: p.pos]], "pc_size": len(p.pc), "assumptions": len(p.assumptions), "pc_head": [str(c)[:160] for c in p.pc[:4]]})
+                res.path_samples.append({"decisions": [bool(d[0]) for d in p.decisions[: p.pos]], "pc_size": len(p.pc), "assumptions": len(p.assumptions), "pc_head": [str(c)[:160] for c in p.pc[:4]]})
         except PathAbort as e:
             res.stats.paths_aborted[e.kind] = res.stats.paths_aborted.get(e.kind, 0) + 1
             if e.kind != "infeasible":
-                res.errors.append({"kind": "abort-" + e.kind, "msg": e.msg, "path": [bool(d) for d in p.decisions[: p.pos]]})
+                res.errors.append({"kind": "abort-" + e.kind, "msg": e.msg, "path": [bool(d[0]) for d in p.decisions[: p.pos]]})
         except allowed_exceptions as e:  # legitimate outcome declared by the harness
             res.stats.paths += 1
             res.notes.setdefault("allowed_exceptions", 0)
             res.notes["allowed_exceptions"] += 1
         except Exception as e:  # harness or code-under-test error on this path
-            res.errors.append({"kind": "exception", "msg": f"{type(e).__name__}: {e}", "trace": traceback.format_exc()[-3000:], "path": [bool(d) for d in p.decisions[: p.pos]]})
+            res.errors.append({"kind": "exception", "msg": f"{type(e).__name__}: {e}", "trace": traceback.format_exc()[-3000:], "path": [bool(d[0]) for d in p.decisions[: p.pos]]})
         finally:
             _arm_watchdog(0)
             V._State.ctx = None
@@ -641,7 +666,7 @@ def explore(scenario, cfg, *, max_paths=2000, tmax=300.0, query_timeout_ms=20000
             res.notes.setdefault(k, v)
         stack.extend(p.pending)
     res.stats.left = len(stack)
-    if stack:
+    if stack or res.stats.paths_aborted.get("unknown-branch"):
         res.complete = False
     res.wall_s = time.time() - t0
     return res
